@@ -39,7 +39,7 @@ def meta(tier, seed):
                   "bandit with the same seed: bit-equal on the exactly summable alphabet, 1e-9 for linear policies; "
                   "(c) greedy/UCB1 expectations shift by c, Softmax unchanged, LinGreedy scales by c (1e-9)",
         "bounds": {"relabellings": list(RELABELS), "permutation_rows": "n <= 5 of 5 fixed rows",
-                   "shift": [-3, 0.5, 10], "scale": [-2, 0.5, 3], "law_histories": "row sequences n <= 3 over 4 rows with "
+                   "shift": [-3, 0.5, 10, 2 ** 20, "-2**20 (Softmax)"], "scale": [-2, 0.5, 3], "law_histories": "row sequences n <= 3 over 4 rows with "
                    "both arms observed x all compositions"},
         "assumptions": ["KNearest is outside (b): its tie-break may depend on row order, as the statement allows"],
     }
@@ -191,9 +191,10 @@ def part_b(shard, acc):
 
 # ---------------------------------------------------------------- (c)
 LAWS = {
-    "shift_eg0": ("eg0", "shift", [-3, 0.5, 10]),
-    "shift_ucb": ("ucb", "shift", [-3, 0.5, 10]),
-    "shift_sm": ("sm", "softmax", [-3, 0.5, 10]),
+    # 2**20: a level at which the differences between the arm means are below 1e-5 of the means themselves
+    "shift_eg0": ("eg0", "shift", [-3, 0.5, 10, 2 ** 20]),
+    "shift_ucb": ("ucb", "shift", [-3, 0.5, 10, 2 ** 20]),
+    "shift_sm": ("sm", "softmax", [-3, 0.5, 10, 2 ** 20, -2 ** 20]),
     "scale_lg": ("lg", "scale", [-2, 0.5, 3]),
 }
 
